@@ -74,8 +74,17 @@ impl<S: Scheme> Session<S> {
         let labels = poly_labels(n, scn.names);
         let mut polys = Vec::new();
         let mut meta = Vec::new();
+        let first_point: Option<S::Pt> = scn.points.first().map(|r| S::point(info, r));
         for (i, r) in scn.polys.iter().enumerate() {
-            let built = S::poly(info, r);
+            let mut built = S::poly(info, r);
+            if r.shape == 8 {
+                if let Some(z) = &first_point {
+                    // p - p(z): the claimed value at the first point value is zero
+                    let v = built.poly.evaluate(z);
+                    built.poly += &S::constant(info, -v);
+                    built.shape = "vanishes_at_first_point";
+                }
+            }
             let deg = built.poly.degree();
             let (bound, hiding) = choose_bound_hiding::<S>(info, deg, r.bound, r.hiding);
             polys.push(LabeledPolynomial::new(
